@@ -52,7 +52,7 @@ func startGetTraversal(
 					}:
 					case <-ctx.Done():
 					}
-				} else if sha1.Sum(append(r.K[:], salt...)) == target && bep44.Verify(r.K[:], salt, *r.Seq, bv, r.Sig[:]) {
+				} else if r.Seq != nil && sha1.Sum(append(r.K[:], salt...)) == target && bep44.Verify(r.K[:], salt, *r.Seq, bv, r.Sig[:]) {
 					select {
 					case vChan <- GetResult{
 						Seq:     *r.Seq,
